@@ -414,9 +414,10 @@ def link(ctx, R):
         R.check(ok, "C07.LINK", "%s|way-points of level l" % d, where(f), "level l: (%s((l+1)(G+H) - H), hop.currentPos) then (%s(l+1)(G+H), hop.currentPos)" % ("+" if sign > 0 else "-", "+" if sign > 0 else "-"),
                 "for direction %s the way-points of stub level l are %s: expected the near edge %s((l+1)(G+H) - H) and the far edge %s(l+1)(G+H) of layer l at the hop's position" % (d, detail, "+" if sign > 0 else "-", "+" if sign > 0 else "-"))
     # (2) concrete chains: label in layer 0; label in layer 1 behind its stub
+    chains = (0, 1, 2) if getattr(ctx, "params", None) and ctx.params.get("big_instances") else (0, 1)
     for d in DIRECTIONS:
         axis_, sign = SIGMA[d]
-        for chain in (0, 1):
+        for chain in chains:
             ps = emit.pipe(ctx, SVG, d, n=2, chain=chain)
             Hn = as_num(H_atom(ps))
             G = A("G")
@@ -440,7 +441,7 @@ def link(ctx, R):
                         break
                     j += 1 + n_
                 shape = [c[0] for c in cmds]
-                want_shape = ["M", "C", "L", "C"] if chain else ["M", "C"]
+                want_shape = ["M", "C"] + ["L", "C"] * int(chain)
                 R.check(shape == want_shape, "C07.LINK", tag + "|segments", where(fsvg), "path %s" % "".join(want_shape), "the link has segments %s, expected %s (curve to each level, straight through every stub)" % (shape, want_shape))
                 if shape != want_shape:
                     continue
@@ -467,14 +468,14 @@ def link(ctx, R):
                 ok_end = as_num(eal).equals(mid) and (as_num(eac) - edge).equals(slack)
                 R.check(ok_end, "C07.LINK", tag + "|ends at the box", where(fsvg), "ends at the middle of the axis-facing edge of its own box%s" % (" (modulo H - t for `up`, discharged by C07.THICK)" if d == "up" else ""),
                         "the link ends at (%s, %s) across/along but the axis-facing edge of the label's box is at %s with centre %s: the link does not end at the middle of that edge" % (key(eac), key(eal), edge.key(), mid.key()))
-                if chain:
-                    stub = "STUB(%s).currentPos" % n.text
-                    c1ac, c1al = pt(cmds[1][1], 4)
-                    lac, lal = pt(cmds[2][1], 0)
-                    near0 = C(sign) * (G + Hn) - C(sign) * Hn
-                    far0 = C(sign) * (G + Hn)
+                for lev in range(int(chain)):
+                    stub = ("STUB(%s).currentPos" % n.text) if lev == 0 else ("STUB%d(%s).currentPos" % (lev, n.text))
+                    c1ac, c1al = pt(cmds[1 + 2 * lev][1], 4)
+                    lac, lal = pt(cmds[2 + 2 * lev][1], 0)
+                    near0 = C(sign) * C(lev + 1) * (G + Hn) - C(sign) * Hn
+                    far0 = C(sign) * C(lev + 1) * (G + Hn)
                     ok_stub = as_num(c1ac).equals(near0) and key(c1al) == stub and as_num(lac).equals(far0) and key(lal) == stub
-                    R.check(ok_stub, "C07.LINK", tag + "|through the stub", where(fsvg), "curve to the stub's near edge, straight line through the stub at its position", "the link passes (%s, %s) then (%s, %s); the stub of layer 0 spans %s..%s across at position %s" % (key(c1ac), key(c1al), key(lac), key(lal), near0.key(), far0.key(), stub))
+                    R.check(ok_stub, "C07.LINK", tag + "|through the stub of layer %d" % lev, where(fsvg), "curve to the stub's near edge, straight line through the stub at its position", "the link passes (%s, %s) then (%s, %s); the stub of layer %d spans %s..%s across at position %s" % (key(c1ac), key(c1al), key(lac), key(lal), lev, near0.key(), far0.key(), stub))
     # getPathFromRoot = reversed chain of parents (root first)
     g = P.func("node.Node.getPathFromRoot")
     ok = any(isinstance(c.func, ast.Name) and c.func.id == "reversed" for c in calls_in(g.node)) and any(isinstance(c.func, ast.Attribute) and c.func.attr == "getPathToRoot" for c in calls_in(g.node))
